@@ -25,6 +25,49 @@ def parse(buf):
     return None, None, None, None, None
 
 
+def descriptor(kind, rng, inner=None):
+    """one well-formed sense data descriptor (SPC-4 4.5.2): bytes"""
+    if kind == "information":
+        return bytes([0x00, 0x0A, 0x80, 0x00]) + bytes(rng.getrandbits(8) for _ in range(8))
+    if kind == "command_specific":
+        return bytes([0x01, 0x0A, 0x00, 0x00]) + bytes(rng.getrandbits(8) for _ in range(8))
+    if kind == "sense_key_specific":
+        return bytes([0x02, 0x06, 0x00, 0x00, 0x80 | rng.getrandbits(7), rng.getrandbits(8), rng.getrandbits(8), 0x00])
+    if kind == "fru":
+        return bytes([0x03, 0x02, 0x00, rng.getrandbits(8)])
+    if kind == "stream":
+        return bytes([0x04, 0x02, 0x00, rng.choice([0x20, 0x40, 0x80])])
+    if kind == "block":
+        return bytes([0x05, 0x02, 0x00, 0x20])
+    if kind == "ata_status":
+        return bytes([0x09, 0x0C]) + bytes(rng.getrandbits(8) for _ in range(12))
+    if kind == "forwarded":
+        # forwarded sense data (0Ch): FSDT/source, forwarded status, then a complete sense data of another command
+        inner = inner if inner is not None else build(rng.choice([0x70, 0x72]), 0, rng.randrange(1, 15), rng.randrange(1, 0x70), rng.randrange(0, 0x20), 18)
+        body = bytes([rng.choice([0x01, 0x02, 0x81]), 0x02]) + bytes(inner)
+        while (len(body) + 2) % 4:
+            body += b"\x00"
+        return bytes([0x0C, len(body)]) + body
+    if kind == "vendor":
+        return bytes([0x80, 0x04, 1, 2, 3, 4])
+    raise KeyError(kind)
+
+
+DESCRIPTOR_KINDS = ["information", "command_specific", "sense_key_specific", "fru", "stream", "block", "ata_status", "forwarded", "vendor"]
+
+
+def build_with_descriptors(rc, key, asc, ascq, descs):
+    """descriptor-format sense data (72h/73h) carrying the given descriptors"""
+    body = b"".join(descs)
+    b = bytearray(8) + body
+    b[0] = rc
+    b[1] = key
+    b[2] = asc
+    b[3] = ascq
+    b[7] = len(body)
+    return bytes(b)
+
+
 def build(rc, valid, key, asc, ascq, length, filler=None, info=0):
     """a sense buffer of `length` bytes with the given values at the SPC positions"""
     n = max(length, 1)
